@@ -94,7 +94,7 @@ func init() {
 			"pg_url is not a position: the harness connects to its own fake server",
 			"the dashboard handlers are the real web.Handler.SaveIntegration/SaveSource with a real shovel.Manager; Manager.Restart is made to fail while loading (a stored integration naming a source that does not exist is present during the POST) so that no free-running runner goroutines exist; tasks are then built with the same loadTasks (VerifLoadTasks) and stepped by the harness",
 			"the operator creates the table a dashboard integration names (shovel never migrates database-stored integrations)",
-			"tasks on database-stored sources are loaded (their SQL is scanned) but not stepped: a stored source has poll duration 0",
+			"tasks on database-stored sources are loaded (their SQL, e.g. set application_name, is scanned) but not stepped: a stored source has poll duration 0 and the first head query of its client panics in time.NewTicker (jrpc2.httpPoll), which is outside this property",
 			"hyphen is accepted by validation but is not an identifier character: the hyphen control only has to pass validation, the plain control has to run the whole lifecycle",
 		},
 		NCases:           func(tier string) int { return c15Shards * c15NBases(tier) },
